@@ -172,6 +172,13 @@ def natural_failures(rng, n):
 def run_c10(run_, rng, tier, exe):
     q = tier == "quick"
     scns = fault_scenarios(rng, 16 if q else 120) + [big_scenario(rng), create_over_existing(rng), create_over_existing(rng)]
+    # a patch that deletes its file applied to a file that has more in it than the patch removes: the decision between removing
+    # the target and writing what is left depends on the size of the result
+    for fmt_ in ["unified", "git"] + ([] if q else ["unified", "git", "unified"]):
+        dsec_ = scen.section(rng, "lo/left", kind="delete", fmt=fmt_, nonl=False)
+        ds_ = scen.base_scenario(rng, [dsec_], opts=dict(rng.choice([{}, {"f": 1}])))
+        k_, m_, d_ = ds_["tree"]["lo/left"]; ds_["tree"]["lo/left"] = (k_, m_, d_ + b"one more line\nand another\n")
+        scns.append(ds_)
     base = run_many(exe, scns, strace=",".join(FAULT_CALLS), timeout=30)
     bad, mism = [], []
     jobs = []
@@ -509,6 +516,14 @@ def run_c09(run_, rng, tier, exe):
     ws = []
     for _ in range(8 if q else 60):
         ws.append(scen.gen_scenario(rng, nsec=rng.choice([1, 2]), kinds=rng.choice([["rename"], ["rename", "change"], ["change"]]), opts=rng.choice([{}, {"b": 1}, {"b": 1}]), drift=0))
+    # a rename with a change, of a file of several stdio blocks whose boundaries fall inside lines: the blocks of the result go
+    # through the temporary file one write at a time
+    bl_ = [("row %04d %s" % (i_, "y" * 29), "L") for i_ in range(330)]
+    bops_ = [(" ", l_) for l_ in bl_]; bops_[300] = ("-", bl_[300]); bops_.insert(301, ("+", ("changed row", "L")))
+    bhs_ = gen.hunks_from_ops(bops_, 3)
+    bsec_ = dict(path="bigsrc/data", newpath="bigdst/data", a=bl_, b=[l_ for o_, l_ in bops_ if o_ != "-"], kind="rename", fmt="git", hs=bhs_, ops=bops_, mode_old=None, mode_new=None, w=3,
+                 text=emit.emit_git("bigsrc/data", "bigdst/data", bhs_, kind="rename"))
+    ws.append(dict(tree={"bigsrc": ("D", 0o755, b""), "bigsrc/data": ("R", 0o644, emit.file_bytes(bl_)), "p.diff": ("R", 0o644, bsec_["text"])}, opts={"p": 1, "i": "p.diff"}, umask=0o022, secs=[bsec_]))
     wbase = run_many(exe, ws, strace="write,openat", timeout=30)
     wjobs = [(i_, k_, e_) for i_, r0_ in enumerate(wbase) for name_, k_, line_ in relevant_calls(r0_.get("trace", []), ["write"]) for e_ in ("ENOSPC", "EIO")]
     import concurrent.futures
